@@ -194,8 +194,10 @@ def concrete_check(sk: Any, payloads: Dict[int, Any], states: Dict[str, int], va
     try:
         if is_eq:
             l, r = ceval(tree.left, env), ceval(tree.right, env)
-            exact = l if (l is not None and r is not None and close(l, r)) else None
-            sides_differ = l is not None and r is not None and not close(l, r)
+            both_int = isinstance(l, Fraction) and isinstance(r, Fraction) and l.denominator == 1 and r.denominator == 1
+            same = (l == r) if both_int else (l is not None and r is not None and close(l, r))
+            exact = l if (l is not None and r is not None and same) else None
+            sides_differ = l is not None and r is not None and not same
         else:
             exact = ceval(tree, env)
             sides_differ = False
